@@ -51,6 +51,12 @@ Example c16_nonvacuous :
   Den [shallow_seq t; shallow_seq inner] t /\ dfs_in_order false 10 [shallow_seq t; shallow_seq inner] 0%N = Ok (events false t).
 Proof. split; [cbn; repeat split; reflexivity|vm_compute; reflexivity]. Qed.
 
+(* the SOURCE of the two drivers (regenerated list of the free functions each driver calls): neither calls itself, the other driver, or any free
+   function at all - only methods of the visitor and of its explicit stack: no recursion on the call stack *)
+From WV Require Gen.TraversalCalls Proofs.TraversalPinned.
+Theorem c16_drivers_do_not_recurse : WV.Proofs.TraversalPinned.calls_nothing WV.Gen.TraversalCalls.traversal_calls.
+Proof. exact WV.Proofs.TraversalPinned.traversal_drivers_call_nothing. Qed.
+
 Print Assumptions c16_in_order.
 Print Assumptions c16_instrs_once_in_order.
 Print Assumptions c16_starts.
@@ -58,3 +64,4 @@ Print Assumptions c16_nested.
 Print Assumptions c16_refs_once.
 Print Assumptions c16_mut_total.
 Print Assumptions c16_mut_refs_once.
+Print Assumptions c16_drivers_do_not_recurse.
